@@ -28,7 +28,7 @@ import (
 // C10 — buckets and keys are independent namespaces; internals are not addressable.
 
 type c10Op struct {
-	K    string `json:"op"` // put | get | head | del | mdel | copy-to | copy-from | complete | api-put | api-get | api-del | list-prefix | mkbucket | rmbucket
+	K    string `json:"op"` // put | get | head | del | mdel | copy-to | copy-from | complete | api-put | api-get | api-del | list-prefix | mkbucket | rmbucket | api-rmbucket | api-force-rmbucket
 	B    string `json:"b"`
 	Key  string `json:"key"`
 	Body string `json:"body,omitempty"`
@@ -230,6 +230,13 @@ func (e *c10Env) exec(op c10Op) *s3x.Resp {
 	case "api-del":
 		_, err := st.Backend.DeleteObject(op.B, op.Key)
 		return apiResp(err)
+	case "api-rmbucket":
+		return apiResp(st.Backend.DeleteBucket(op.B))
+	case "api-force-rmbucket":
+		if f, ok := st.Backend.(interface{ ForceDeleteBucket(name string) error }); ok {
+			return apiResp(f.ForceDeleteBucket(op.B))
+		}
+		return &s3x.Resp{Status: 501, Body: []byte("the backend has no ForceDeleteBucket")}
 	case "mkbucket":
 		return s3x.Do(h, &s3x.Req{Method: "PUT", Path: "/" + op.B})
 	case "rmbucket":
@@ -268,7 +275,7 @@ func (e *c10Env) step(op c10Op) (ds []disc, accepted bool) {
 		fail("panic", "%s at %s", resp.Panic, resp.PanicSite)
 	}
 	accepted = resp.Panic == "" && resp.Status >= 200 && resp.Status < 300
-	mutating := map[string]bool{"put": true, "del": true, "mdel": true, "copy-to": true, "copy-from": true, "complete": true, "post": true, "api-put": true, "api-del": true, "mkbucket": true, "rmbucket": true}[op.K]
+	mutating := map[string]bool{"put": true, "del": true, "mdel": true, "copy-to": true, "copy-from": true, "complete": true, "post": true, "api-put": true, "api-del": true, "mkbucket": true, "rmbucket": true, "api-rmbucket": true, "api-force-rmbucket": true}[op.K]
 	after := e.snap()
 	if e.st.GuardTripped() {
 		fail("runaway-recursion", "after the operation, listing the store recursed without bound (a fatal stack overflow in production)")
@@ -293,7 +300,7 @@ func (e *c10Env) step(op c10Op) (ds []disc, accepted bool) {
 		}
 		return isFs && c10Alias(k, addrKey)
 	}
-	if before.Buckets != after.Buckets && op.K != "mkbucket" && op.K != "rmbucket" {
+	if before.Buckets != after.Buckets && op.K != "mkbucket" && op.K != "rmbucket" && op.K != "api-rmbucket" && op.K != "api-force-rmbucket" {
 		fail("bucket-set-changed", "ListBuckets before %s after %s", before.Buckets, after.Buckets)
 	}
 	for id, obs := range before.Keys {
@@ -624,7 +631,7 @@ func c10Run(t *testing.T, c *evid.Collector) {
 	// ---- hostile bucket names: nothing addressed to them may touch bk0 / bk1
 	for _, k := range kinds {
 		for _, b := range c10HostileBuckets {
-			for _, opk := range []string{"put", "get", "head", "del", "mdel", "copy-to", "list-prefix", "api-put", "api-get", "api-del", "rmbucket", "mkbucket", "post", "complete"} {
+			for _, opk := range []string{"put", "get", "head", "del", "mdel", "copy-to", "list-prefix", "api-put", "api-get", "api-del", "rmbucket", "mkbucket", "post", "complete", "api-rmbucket", "api-force-rmbucket"} {
 				hkeys := []string{"a", "bk0/a"}
 				if evid.Thorough() {
 					hkeys = []string{"a", "x", "bk0/a", "d/x"}
@@ -634,7 +641,7 @@ func c10Run(t *testing.T, c *evid.Collector) {
 					if n%evid.Shards() != evid.Shard() {
 						continue
 					}
-					if (opk == "rmbucket" || opk == "mkbucket") && key != "a" {
+					if (opk == "rmbucket" || opk == "mkbucket" || opk == "api-rmbucket" || opk == "api-force-rmbucket") && key != "a" {
 						continue
 					}
 					cs := c10Case{Backend: k, Ops: []c10Op{{K: opk, B: b, Key: key, Body: "hostile bucket"}}}
